@@ -106,6 +106,28 @@ Theorem C02_deploy_ok_iff : forall ds nc ls,
 Proof. exact deploy_ok_iff. Qed.
 Print Assumptions C02_deploy_ok_iff.
 
+(* That statement, and every statement about creation below, rests on the status aggregation being
+   linearizable: each SafeStatus.merge re-aggregates the children and stores the result inside one
+   critical section, so that concurrent status updates (one goroutine per Mesos update) cannot lose
+   one.  It is an explicit hypothesis here, ... *)
+Theorem C02_deploy_ok_iff_given_atomic_aggregation : forall ds nc ls,
+  status_merge_atomic = true ->
+  (deploy_ok (launch_all ds ls) nc = true <-> (ds <> [] \/ nc <> 0) /\ all_launch_ok ds ls = true).
+Proof. exact deploy_ok_iff_atomic. Qed.
+Print Assumptions C02_deploy_ok_iff_given_atomic_aggregation.
+
+(* ... discharged from the source: the lock discipline the translator mergeatomic reads off
+   core/workflow/safestatus.go on every run (gen/Gen_MergeAtomic.v) ... *)
+Theorem C02_status_aggregation_atomic_in_source : status_merge_atomic = true.
+Proof. exact status_merge_atomic_in_source. Qed.
+Print Assumptions C02_status_aggregation_atomic_in_source.
+
+(* ... and without it nothing is promised: DEPLOY may never see ACTIVE although every task is. *)
+Theorem C02_deploy_needs_atomic_aggregation : forall ts nc,
+  status_merge_atomic = false -> deploy_ok ts nc = false.
+Proof. exact deploy_needs_atomic. Qed.
+Print Assumptions C02_deploy_needs_atomic_aggregation.
+
 (* creation, exactly (every workflow, launch script, CONFIGURE script): the workflow has a role,
    every task launched, every critical task acknowledged CONFIGURE *)
 Theorem C02_create_exact : forall ds nc ls oc,
